@@ -4,12 +4,13 @@
 //!   parse <hex> any | exp W H <pixhex>        -> ok W H <pixhex> | err:end | err:num | err:unsup:<aabb>   rd:same|rd:diff
 //!   pair <hex text> <hex binary>              -> <result> | <result>
 //!   write W H S N l t r b <pixhex N pixels>   -> w:<hex written> p:<result of parsing it back>
+//!   writem W H S N l t r b <pixhex N pixels>  -> same, through MutSlice2::new + slice_mut (impl AsSlice2 for MutSlice2)
 //!   writeb W H <pixhex W*H pixels>            -> w:<hex> p:<result>         (owned Buf2, by value and by reference)
 //!   rsnum BITS <hex>                          -> ok:<v> | empty | invalid   (str::parse::<uBITS> of the Latin-1 string)
 //!   rsws                                      -> 256 x 0/1                   (u8::is_ascii_whitespace)
 //!   rsdec N                                   -> hex of format!("{}", N as u32)
 use re::math::{rgb, Color3};
-use re::util::buf::{Buf2, Slice2};
+use re::util::buf::{Buf2, MutSlice2, Slice2};
 use re::util::pnm::{parse_pnm, read_pnm, write_ppm, Error};
 
 use vharness::util::*;
@@ -55,6 +56,18 @@ pub fn run(t: &[&str]) -> String {
             assert_eq!(root.len() as u32, n[3], "harness: pixel count");
             let view = Slice2::new((w, h), s, &root);
             let sub = view.slice((l..r, tp..b));
+            let mut out = vec![];
+            write_ppm(&mut out, sub).unwrap();
+            format!("w:{} p:{}", hex_bytes(&out), show(parse_pnm(out.iter().copied())))
+        }
+        "writem" => {
+            // the same view as a *mutable* strided sub-view: `impl AsSlice2 for MutSlice2`
+            let n: Vec<u32> = t[1..9].iter().map(|s| s.parse().unwrap()).collect();
+            let (w, h, s, _len, l, tp, r, b) = (n[0], n[1], n[2], n[3], n[4], n[5], n[6], n[7]);
+            let mut root = pixels(t[9]);
+            assert_eq!(root.len() as u32, n[3], "harness: pixel count");
+            let mut view = MutSlice2::new((w, h), s, &mut root);
+            let sub = view.slice_mut((l..r, tp..b));
             let mut out = vec![];
             write_ppm(&mut out, sub).unwrap();
             format!("w:{} p:{}", hex_bytes(&out), show(parse_pnm(out.iter().copied())))
@@ -360,6 +373,7 @@ pub fn gen(rng: &mut Rng, tier: Tier, out: &mut Vec<String>) {
         let b = t + rng.below(h - t + 1);
         let px = rand_pixels(rng, n as usize);
         out.push(format!("write {w} {h} {s} {n} {l} {t} {r} {b} {}", px_hex(&px)));
+        out.push(format!("writem {w} {h} {s} {n} {l} {t} {r} {b} {}", px_hex(&px)));
         let px = rand_pixels(rng, (w * h) as usize);
         out.push(format!("writeb {w} {h} {}", px_hex(&px)));
     }
